@@ -252,6 +252,13 @@ FamOps(f) ==
 Weights ==
   CASE Profile = "push" -> <<"pushblob", "pushblob", "pushblob", "manput", "manput", "manput", "manput", "mandel",
                              "blobget", "manget", "blobdel", "restart">>
+    \* content pushed to a directory store, the server re-opened as a memory store over that directory, the content pushed
+    \* again (it is then held twice), deleted and collected
+    [] Profile = "gcmd" -> <<"pushblob", "pushblob", "manput", "manput", "manput", "reconf", "repushblob", "repushblob", "manputdig", "manput",
+                             "mandel", "mandel", "gc", "gc", "gc", "blobdel">>
+    \* pushes, deletes and re-pushes of content whose first upload has aged, restarts (a directory store collects on Close)
+    [] Profile = "pushage" -> <<"pushblob", "pushblob", "repushblob", "repushblob", "manput", "manput", "manput", "mandel", "mandel",
+                                "age", "age", "restart", "restart", "blobdel">>
     [] Profile = "pull" -> <<"pushblob", "pushblob", "pushblob", "manput", "manput", "manput", "manput", "manput", "mangetchild",
                              "mangetchild", "mangetchild", "manget", "manget", "blobget", "mandel", "restart", "repushblob">>
     [] Profile = "tags" -> <<"pushblob", "pushblob", "manput", "manput", "manput", "manput", "mandel", "mandel",
